@@ -347,27 +347,46 @@ Section Wrapper.
 
   (** ---- documents ---- *)
   Lemma parse_relaxed_loop_spec all_lines yerr : forall ds acc,
+    (forall d nl, In (d, nl) ds -> too_big d = false) ->
     exists gs, parse_relaxed_loop plines metric_ok lname_ok lvalue_ok all_lines ds yerr acc =
                  Some {| f_groups := acc ++ gs; f_error := yerr |} /\
                concat_opt (map (fun d : node * nat => PN (doc_fuel (fst d)) (firstn (snd d) all_lines) 0 (fst d) None None) ds) = Some gs.
   Proof.
-    induction ds as [|[d nl] r IH]; intros acc; cbn [parse_relaxed_loop map concat_opt fst snd].
+    induction ds as [|[d nl] r IH]; intros acc Hsmall; cbn [parse_relaxed_loop map concat_opt fst snd].
     - exists []. now rewrite app_nil_r.
-    - destruct (parse_node_total (doc_fuel d) (firstn nl all_lines) 0 d None None) as [x Hx]; [unfold doc_fuel; lia|].
-      rewrite Hx. destruct (IH (acc ++ x)) as (gs & E1 & E2). rewrite E1, E2.
+    - rewrite (Hsmall d nl (or_introl eq_refl)).
+      destruct (parse_node_total (doc_fuel d) (firstn nl all_lines) 0 d None None) as [x Hx]; [unfold doc_fuel; lia|].
+      rewrite Hx. destruct (IH (acc ++ x) (fun d0 nl0 H0 => Hsmall d0 nl0 (or_intror H0))) as (gs & E1 & E2). rewrite E1, E2.
       exists (x ++ gs). now rewrite app_assoc.
+  Qed.
+
+  (** Parser.Parse in relaxed mode always returns: every document either is refused by the alias-expansion limit (2108dfa,
+      the remaining documents are not read) or is descended completely with the fuel [doc_fuel]. *)
+  Lemma parse_relaxed_loop_total all_lines yerr : forall ds acc,
+    exists f, parse_relaxed_loop plines metric_ok lname_ok lvalue_ok all_lines ds yerr acc = Some f /\
+              (f_error f = yerr \/ exists d nl, In (d, nl) ds /\ too_big d = true /\ f_error f = Some (too_big_error d)).
+  Proof.
+    induction ds as [|[d nl] r IH]; intros acc; cbn [parse_relaxed_loop].
+    - eexists. split; [reflexivity|]. left. reflexivity.
+    - destruct (too_big d) eqn:TB.
+      + eexists. split; [reflexivity|]. right. exists d, nl. split; [left; reflexivity|]. split; [exact TB|reflexivity].
+      + destruct (parse_node_total (doc_fuel d) (firstn nl all_lines) 0 d None None) as [x Hx]; [unfold doc_fuel; lia|].
+        rewrite Hx. destruct (IH (acc ++ x)) as (f & E & [Hf|(d0 & nl0 & Hin & Hb & He)]).
+        * exists f. split; [exact E|]. left. exact Hf.
+        * exists f. split; [exact E|]. right. exists d0, nl0. split; [right; exact Hin|]. split; assumption.
   Qed.
 
   (** File level: the wrapped document may be preceded and followed by documents that contain no rules. *)
   Theorem wrapper_invariance_file all_lines yerr before m nl after linesS offS S pS f1 gsS :
+    (forall x k, In (x, k) (before ++ (m, nl) :: after) -> too_big x = false) ->
     (forall x k, In (x, k) (before ++ after) -> no_rules_in (firstn k all_lines) 0 x None) ->
     wrapper linesS offS S pS (firstn nl all_lines) 0 m None ->
     PN f1 linesS offS S pS None = Some gsS ->
     exists f, parse_relaxed plines metric_ok lname_ok lvalue_ok all_lines (before ++ (m, nl) :: after) yerr = Some f /\
               all_rules (f_groups f) = all_rules gsS.
   Proof.
-    intros Hsib Hw H1. unfold parse_relaxed.
-    destruct (parse_relaxed_loop_spec all_lines yerr (before ++ (m, nl) :: after) []) as (gs & E1 & E2).
+    intros Hsmall Hsib Hw H1. unfold parse_relaxed.
+    destruct (parse_relaxed_loop_spec all_lines yerr (before ++ (m, nl) :: after) [] Hsmall) as (gs & E1 & E2).
     rewrite E1. eexists. split; [reflexivity|]. cbn [f_groups app].
     destruct (concat_opt_map_app_inv _ _ _ _ _ E2) as (ga & gx & gb & Ea & Ex & Eb & ->). cbn [fst snd] in Ex.
     rewrite !all_rules_app, (wrapper_invariance _ _ _ _ _ _ _ _ Hw _ _ _ _ H1 Ex).
